@@ -46,6 +46,19 @@ CLAIMED['C18'] = dict(level='proof', design='DESIGN.md section 7 (C18)',
          'state\'s duration, register/unregister semantics, cyclical by default.',
     note='Trusted: pyvc encoding, dict order contracts, rely on actions.  Hand lemma: event-chain induction gives the absolute times.',
     technique='contract-based deductive verification: loop invariant over dict iteration order, ghost trace of invocations, z3')
+CLAIMED['C13'] = dict(level='proof', design='DESIGN.md section 7 (C13)',
+    text='PartProcessor state machine verified per method: shutdown/restore idempotent, failure discards exactly the part in '
+         'process and reports it once (also when the machine is already down -- defect found and repaired), finished part kept, '
+         'no acceptance / release while down, uptime and utilization accounting continuous, callbacks once each in order.',
+    note='Trusted: pyvc encoding; rely on callbacks; event-handler preconditions by hand lemma (events of a down machine are '
+         'paused/cancelled); visible-state invariants of other objects.',
+    technique='contract-based deductive verification: class invariant, two-state postconditions, rely/guarantee, ghost trace, z3')
+CLAIMED['C11'] = dict(level='proof', design='DESIGN.md section 7 (C11)',
+    text='Resource discipline of PartProcessor: reservation equals the declared positive requirements, acquired atomically on '
+         'acceptance through the verified ResourceManager contract, waiter registered exactly once, released on failure and when '
+         'idle after finishing, kept through maintenance.',
+    note='Trusted: pyvc encoding; C09 contracts of the resource manager used modularly; hand lemma for the pool-wide sum.',
+    technique='contract-based deductive verification: class invariant over the reservation, modular use of callee contracts, z3')
 NOT_APPLICABLE = {
     'C04': 'whole-line max-plus recurrence equality is a relational whole-history property outside contract-based '
            'verification (DESIGN.md section 8); its local timing lemmas are proved under C01/C05/C06',
